@@ -34,6 +34,8 @@ pub struct Allow {
     pub uint_minmax_literal: bool,
     /// the `<` operator (the parser dependency may take it for the start of type arguments)
     pub less_than: bool,
+    /// favour pointer chains, objects through locals and ternaries (C02)
+    pub pointer_heavy: bool,
 }
 
 #[derive(Clone, Debug)]
@@ -108,7 +110,11 @@ impl<'c, 'a, 'w> PGen<'c, 'a, 'w> {
             return None;
         }
         let locals: Vec<usize> = self.scope.iter().copied().filter(|i| self.assigned.contains(i) && self.locals[*i].ty == T::Ptr("VSrc")).collect();
-        let k = self.ch.weighted(&[55, if d > 0 { 25 } else { 0 }, if locals.is_empty() { 0 } else { 12 }, if d > 0 { 8 } else { 0 }]);
+        let k = if self.opts.allow.pointer_heavy {
+            self.ch.weighted(&[25, if d > 0 { 45 } else { 0 }, if locals.is_empty() { 0 } else { 25 }, if d > 0 { 15 } else { 0 }])
+        } else {
+            self.ch.weighted(&[55, if d > 0 { 25 } else { 0 }, if locals.is_empty() { 0 } else { 12 }, if d > 0 { 8 } else { 0 }])
+        };
         self.nodes += 1;
         Some(match k {
             0 => E::Obj(*self.ch.pick(&srcs)),
